@@ -49,8 +49,18 @@ def run(ctx):
         # nested centred windows W1 <= W2 <= full
         w2 = (rng.randint(1, full[0]), rng.randint(1, full[1]))
         w1 = (rng.randint(1, w2[0]), rng.randint(1, w2[1]))
+        # a sub-sample displacement (|s| < 1: the window does not move, every sample is evaluated between the old ones) keeps
+        # the full-period total; the same shapes are propagated repeatedly, so cached transform coordinates must stay intact
+        tilt = None
+        if ox.lcm(g['Kr'], g['Kc']) <= 12 and rng.random() < 0.7:
+            sq = rng.choice(((Fr(1, 4), Fr(-1, 2)), (Fr(-3, 4), Fr(1, 4)), (Fr(1, 2), Fr(1, 2))))
+            tilt = (sq[0] * g['du'][0] / (g['z'] * g['os']), -sq[1] * g['du'][1] / (g['z'] * g['os']))
+            g['N'] = ox.lcm(g['N'], 4 * g['Kr'], 4 * g['Kc'])
+            pupil = ox.plane('Pupil', amp=g['amp'], opd=g['opd'] * (g['N'] // ox.lcm(g['Kr'], g['Kc'], 4)), px=g['dx'], z=g['z'])
+            g['opd'] = g['opd'] * (g['N'] // ox.lcm(g['Kr'], g['Kc'], 4))
+        g['tilt'] = tilt
         for name, win in (('full', full), ('w2', w2), ('w1', w1)):
-            cases.append(dict(N=g['N'], gi=gi, win=name, wf=ox.wf(g['lam']), steps=[pupil, ox.dft(g['du'], full, win, g['os'])],
+            cases.append(dict(N=g['N'], gi=gi, win=name, wf=ox.wf(g['lam'], tilt=tilt), steps=[pupil, ox.dft(g['du'], full, win, g['os'])],
                               thm='energy' if (name == 'full' and g['N'] <= 24 and rng.random() < 0.5) else 'none'))
         cases.append(dict(N=g['N'], gi=gi, win='fft', wf=ox.wf(g['lam']), steps=[pupil, ox.fft(g['du'], full, g['os'])], thm='none'))
     for i, c in enumerate(cases):
@@ -93,9 +103,10 @@ def run(ctx):
     nnorm = 0
     for gi, g in enumerate(geoms[: (120 if q else 1000)]):
         p = rng.choice((1.0, 0.5, 3.25, 100.0, 1e-3))
-        kind = rng.choice(('float', 'int', 'uint8', 'bool'))
+        kind = rng.choice(('float', 'int', 'uint8', 'bool', 'complex'))
         raw = {'float': g['amp'].astype(float), 'int': g['amp'].astype(int), 'uint8': (g['amp'] * 9).astype(np.uint8),
-               'bool': g['amp'] > 0}[kind]
+               'bool': g['amp'] > 0,
+               'complex': g['amp'] * np.exp(2j * np.pi * g['opd'] / g['N'])}[kind]
         nnorm += 1
         try:
             a = lentil.normalize_power(raw, p)
@@ -119,6 +130,7 @@ def run(ctx):
                     ctx.violation({'kind': 'normalized-amplitude-images-to-p', 'fn': fn, 'os': g['os']}, {'target': p, 'total': t, 'K': [g['Kr'], g['Kc']]}, case=None)
         except Exception as ex:
             ctx.violation({'kind': 'normalize-section-' + type(ex).__name__, 'dtype': kind}, {'error': repr(ex)[:300], 'K': [g['Kr'], g['Kc']]}, case=None)
+    ox.binding_selftest(ctx, lentil, cases[0], spec[cases[0]['id']])
     ctx.traces += len(cases)
     ctx.extra.update({'geometries': len(geoms), 'parseval_theorem_cases': sum(1 for c in cases if c['thm'] == 'energy'),
                       'normalize_power_cases': nnorm})
